@@ -51,7 +51,12 @@ struct Obs {
   }
   Obs& add(const std::string& name, double v) { return raw(name, f64(v)); }
   Obs& add(const std::string& name, float v) { return raw(name, f32(v)); }
-  Obs& add(const std::string& name, const std::string& v) { return raw(name, "'" + hexbytes(v.data(), v.size(), 64) + "'"); }
+  static std::string strv(const std::string& v) {
+    std::string o = "'" + hexbytes(v.data(), v.size(), 64) + "'";
+    if (v.size() > 64) { uint64_t h = v.size(); for (unsigned char c : v) h = (h ^ c) * 0x100000001b3ULL; o += "#" + std::to_string(v.size()) + ":" + std::to_string(h); }   // long: length and FNV hash of all of it
+    return o;
+  }
+  Obs& add(const std::string& name, const std::string& v) { return raw(name, strv(v)); }
   Obs& add(const std::string& name, const char* v) { return raw(name, v); }
   // a call that may legitimately throw (e.g. queries on an empty sketch): record "throws" instead
   template<typename F> Obs& call(const std::string& name, F&& f) {
@@ -62,7 +67,18 @@ struct Obs {
 
 inline std::string item_str(double v) { return Obs::f64(v); }
 inline std::string item_str(float v) { return Obs::f32(v); }
-inline std::string item_str(const std::string& v) { return "'" + hexbytes(v.data(), v.size(), 64) + "'"; }
+inline std::string item_str(const std::string& v) { return Obs::strv(v); }
+
+// an item longer than the 64 KiB piece the stream string serde reserves at a time; position-dependent content, sorts last
+inline std::string long_string(Rng& r) {
+  static const size_t L[] = {65535, 65536, 65537, 70001, 131073};
+  const size_t l = L[r.below(5)];
+  std::string s(l, 'z');
+  for (size_t i = 1; i < l; ++i) s[i] = static_cast<char>('a' + (i * 7 + i / 251) % 26);
+  return s;
+}
+template<typename T> struct LongItem { static bool make(Rng&, T&) { return false; } };
+template<> struct LongItem<std::string> { static bool make(Rng& r, std::string& out) { out = long_string(r); return true; } };
 template<typename T> typename std::enable_if<std::is_integral<T>::value, std::string>::type item_str(T v) { return std::to_string(v); }
 
 inline std::string first_diff(const std::string& a, const std::string& b) {
